@@ -102,6 +102,8 @@ def standin_subcircuits(tier, seed):
             try:
                 want = refsim.ref_distribution(ref, qs)
                 break
+            except RuntimeError:
+                break  # more measurement branches than the reference enumerates: outside the bound
             except NotImplementedError:
                 flat_variants.pop(ref_name)  # this flattening leaves a controlled sub-circuit in place: not a flat circuit
             except refsim.ControlBeforeMeasurement:
@@ -112,7 +114,7 @@ def standin_subcircuits(tier, seed):
         for name, fc in flat_variants.items():
             try:
                 d = refsim.ref_distribution(fc, qs)
-            except NotImplementedError:
+            except (NotImplementedError, RuntimeError):
                 continue
             except refsim.ControlBeforeMeasurement as ex:
                 fails.append(dict(args=dict(circuit=repr(c), flattening=name), failed="invalid-flat-circuit", clause=f"{name}: {ex}"))
